@@ -246,6 +246,10 @@ func (h *c09History) kinds() string {
 			b.WriteByte('L')
 		case "remove":
 			b.WriteByte('D')
+		case "rereg":
+			b.WriteByte('I')
+		case "wait-half":
+			b.WriteByte('h')
 		case "wait-short":
 			b.WriteByte('w')
 		case "wait-past":
@@ -349,12 +353,31 @@ func c09GenHistory(r *rand.Rand, idx int) *c09History {
 			break
 		}
 	}
+	lastReg := map[int]c09Op{}
 	reg := func(node, t int) c09Op {
 		rec, sh := c09GenRecord(r, primary, h.tids[t], h.nodeIDs[node])
 		sh["TunnelID"] = h.tidShape[t]
-		return c09Op{Kind: "reg", Node: node, Tid: t, rec: rec, shapes: sh}
+		o := c09Op{Kind: "reg", Node: node, Tid: t, rec: rec, shapes: sh}
+		lastReg[t] = o
+		return o
 	}
 	op := func(k string, node, t int) c09Op { return c09Op{Kind: k, Node: node, Tid: t} }
+	// rereg: the same node registers the IDENTICAL record again (retransmit / re-attach):
+	// the waiting period starts anew
+	rereg := func(node, t int) c09Op {
+		o, ok := lastReg[t]
+		if !ok {
+			return reg(node, t)
+		}
+		o.Kind = "rereg"
+		return o
+	}
+	// reregSeq: register, let 3/4 of the TTL pass, register the identical record again,
+	// let another 1/2 TTL pass (now past the first deadline, well before the second), look up
+	reregSeq := func(node, t int) []c09Op {
+		return []c09Op{reg(node, t), op("wait-short", 0, 0), op("wait-short", 0, 0), op("wait-short", 0, 0), rereg(node, t),
+			op("wait-half", 0, 0), op("lookup", (node+1)%h.NNodes, t), op("lookup", node, t)}
+	}
 	regAddr := func(node, which int) c09Op {
 		a, _ := c09Str(r, primary)
 		if r.Intn(2) == 0 {
@@ -377,18 +400,27 @@ func c09GenHistory(r *rand.Rand, idx int) *c09History {
 		for t := 1; t < len(h.tids); t++ {
 			h.ops = append(h.ops, reg(t%h.NNodes, t), op("lookup", (t+1)%h.NNodes, t), op("lookup", 0, 0))
 		}
+		h.ops = append(h.ops, reregSeq(0, len(h.tids)-1)...)
 		return h
 	}
 	n := 8 + r.Intn(22)
 	pastLeft := 2
+	seqLeft := 1
 	for i := 0; i < n; i++ {
 		node := r.Intn(h.NNodes)
 		t := r.Intn(len(h.tids))
 		switch x := r.Intn(100); {
-		case x < 30:
+		case x < 28:
 			h.ops = append(h.ops, reg(node, t))
-		case x < 65:
+		case x < 58:
 			h.ops = append(h.ops, op("lookup", node, t))
+		case x < 61:
+			h.ops = append(h.ops, rereg(node, t))
+		case x < 65:
+			if seqLeft > 0 {
+				seqLeft--
+				h.ops = append(h.ops, reregSeq(node, t)...)
+			}
 		case x < 77:
 			h.ops = append(h.ops, op("remove", node, t))
 		case x < 82:
@@ -418,6 +450,7 @@ type c09ModelRec struct {
 	shapes  map[string]string
 	regCall time.Time
 	regRet  time.Time
+	prevRet time.Time // return instant of the register this one superseded (identical re-register), if any
 }
 
 type c09Model struct {
@@ -510,6 +543,9 @@ func c09RunHistory(run *vk.Run, h *c09History, ttl time.Duration) {
 		case "wait-short":
 			env.sleep(ttl / 4)
 			continue
+		case "wait-half":
+			env.sleep(ttl / 2)
+			continue
 		case "wait-past":
 			// sleep until every registered record of every backend is certainly past its deadline
 			var latest time.Time
@@ -534,7 +570,7 @@ func c09RunHistory(run *vk.Run, h *c09History, ttl time.Duration) {
 			m := models[bi]
 			rt := b.nodes[op.Node]
 			switch op.Kind {
-			case "reg":
+			case "reg", "rereg":
 				tid := h.tids[op.Tid]
 				st := *op.rec // fresh copy per backend: Register writes the timestamps into it
 				var rerr error
@@ -558,7 +594,13 @@ func c09RunHistory(run *vk.Run, h *c09History, ttl time.Duration) {
 					viol("C09:register-error|backend="+b.name, b, oi, map[string]any{"error": rerr.Error(), "tid_shape": h.tidShape[op.Tid]})
 					continue
 				}
-				m.recs[tid] = &c09ModelRec{want: st, shapes: op.shapes, regCall: call, regRet: ret}
+				// the deadline of a tunnel is that of its LATEST successful register
+				nrec := &c09ModelRec{want: st, shapes: op.shapes, regCall: call, regRet: ret}
+				if prev := m.recs[tid]; prev != nil && op.Kind == "rereg" {
+					nrec.prevRet = prev.regRet
+					run.Count("op_reregister_identical_over_live_model_record", 1)
+				}
+				m.recs[tid] = nrec
 				delete(m.removed, tid)
 			case "remove":
 				tid := h.tids[op.Tid]
@@ -635,6 +677,10 @@ func c09RunHistory(run *vk.Run, h *c09History, ttl time.Duration) {
 						continue
 					}
 					run.Count("hit_certain|"+b.name, 1)
+					if !rec.prevRet.IsZero() && call.After(rec.prevRet.Add(ttl+c09Eps)) {
+						// resolved although the deadline of the superseded (identical) register has certainly passed
+						run.Count("hit_past_superseded_deadline|"+b.name, 1)
+					}
 					if op.Node != c09NodeIndex(h, rec.want.SourceNodeID) {
 						run.Count("hit_from_other_node|"+b.name, 1)
 					}
@@ -733,7 +779,7 @@ func TestVerifC09Histories(t *testing.T) {
 	vk.Quiet()
 	run := vk.Start(t, "C09", "routing-histories")
 	defer run.Finish()
-	run.Rule("seeded histories of register/lookup/remove/wait/re-register/node-address ops over 1-5 tunnel ids (hostile strings, near-colliding ids) and 2-3 RoutingTable nodes, " +
+	run.Rule("seeded histories of register/lookup/remove/wait/re-register (new data, and the IDENTICAL record again part-way through the TTL)/node-address ops over 1-5 tunnel ids (hostile strings, near-colliding ids) and 2-3 RoutingTable nodes, " +
 		"executed in lockstep on 6 backend configurations (memory, redis/miniredis clock mirrored, redis/miniredis clock frozen, hybrid(memory), hybrid(memory+shared miniredis) mirrored and frozen); " +
 		"history i uses value shape i mod |shapes| as primary shape, the first |shapes| histories follow a fixed template; distinct = (backend, primary shape, op-kind sequence)")
 	n := run.Pick(400, 5000)
@@ -777,6 +823,7 @@ func TestVerifC09Histories(t *testing.T) {
 		run.Floor("hit_from_other_node|"+b, int64(n/3))
 		run.Floor("expiry_observed|"+b, int64(n/3))
 		run.Floor("removal_observed|"+b, int64(n/3))
+		run.Floor("hit_past_superseded_deadline|"+b, int64(n/10))
 		run.Floor("addr_ok|"+b, int64(n/5))
 		for _, s := range c09Shapes {
 			run.Floor("shape_ok|"+s.name+"|"+b, 1)
